@@ -22,15 +22,15 @@ FUNCTIONS = ["FmtStr.__add__", "__radd__", "__mul__", "__getitem__", "splice", "
              "rjust", "copy_with_new_atts", "new_with_atts_removed", "copy_with_new_str", "width_aware_slice",
              "width_aware_splitlines", "__getattr__ (upper)", "fmtstr", "copy", "FmtStr.__str__/__len__/s/width/__repr__",
              "Chunk.color_str", "FrozenAttributes", "FmtStr.__setitem__"]
-BOUNDS = ("pool: 3 initial FmtStrs (1-2 runs; narrow, double-width, combining, newline and separator characters); programs of "
-          "L = 1 (all 20 operations) and L = 2 (quick: 80 op-code pairs chosen by VERIF_SEED, thorough: all 400) and L = 3 "
+BOUNDS = ("pool: 4 initial FmtStrs (1-2 runs, one with a formatted empty run next to unformatted text; narrow, double-width, combining, newline and separator characters); programs of "
+          "L = 1 (all 23 operations) and L = 2 (quick: 80 op-code pairs chosen by VERIF_SEED, thorough: all 529) and L = 3 "
           "(thorough: 300 seeded triples); per step: operands x, y in the current pool, a <= b in 0..3, observation choice in "
           "{none, str, len+s, width, all+delegated} before every step - all enumerated by the solver")
 STUBS = ["texts are concrete representatives (the operations inspect characters through C code: regex, cwcwidth)",
          "real cwcwidth (the C extension is called on concrete characters)"]
 
 OPS = ["add", "add_str", "radd_str", "mul", "slice", "splice", "splice_str", "append", "join", "split", "splitlines", "ljust",
-       "rjust_fill", "with_atts", "without_atts", "new_str", "wslice", "wsplit", "upper", "rewrap", "copy"]
+       "rjust_fill", "with_atts", "without_atts", "new_str", "wslice", "wsplit", "upper", "rewrap", "copy", "ljust_short", "rjust_short"]
 OBS = 5
 CASES = []
 
@@ -39,7 +39,8 @@ def _initial_pool():
     from curtsies.formatstring import FmtStr, Chunk
     return [FmtStr(Chunk("ab", {"fg": 31}), Chunk("Ｅ,c", {"bold": True})),
             FmtStr(Chunk("x\ny", {"bg": 44})),
-            FmtStr(Chunk("á", {"fg": 32, "underline": True}), Chunk("", {"fg": 32}))]
+            FmtStr(Chunk("á", {"fg": 32, "underline": True}), Chunk("", {"fg": 32})),
+            FmtStr(Chunk("", {"fg": 31}), Chunk("a b"))]          # a formatted empty run next to unformatted text
 
 
 def instances(tier, seed):
@@ -74,7 +75,7 @@ def witness_instances(fn, lst, tier):
 def _step_cases(light):
     """operand tuples (x, y, a, b, obs) of one step"""
     out = []
-    for x in range(3):
+    for x in range(4):
         for y in range(2):
             for (a, b) in ((0, 1), (1, 3), (2, 2), (0, 3), (1, 2), (0, 0)) if not light else ((1, 2),):
                 for obs in range(OBS) if not light else (0, 1, 3, 4):
@@ -158,6 +159,10 @@ def _apply(op, pool, x, y, a, b):
         return [fmtstr(X, "underline")]
     if op == "copy":
         return [X.copy()]
+    if op == "ljust_short":
+        return [X.ljust(max(0, len(X) - 1 - a % 2))]        # narrower than the text: nothing to pad
+    if op == "rjust_short":
+        return [X.rjust(max(0, len(X) - 1 - a % 2))]
     raise KeyError(op)
 
 
@@ -179,6 +184,15 @@ def _views(p):
     return (p.s, len(p), w, str(p), repr(p), tuple((c, tuple(sorted(disp(ch.atts).items()))) for ch in p.chunks for c in ch.s), sh)
 
 
+def _views_isolated(st):
+    """(s, len, width, str), each computed FIRST on its own fresh value (no other view filled in before)"""
+    try:
+        w = _fresh(st).width
+    except ValueError:
+        w = "ValueError"
+    return (_fresh(st).s, len(_fresh(st)), w, str(_fresh(st)))
+
+
 def run_program(ops, operands):
     """returns None when everything is coherent, else a description"""
     pool = _initial_pool()
@@ -197,6 +211,9 @@ def run_program(ops, operands):
         f = _views(_fresh(st))
         if v != f:
             return "value %d: memoised views %r differ from freshly computed %r" % (idx, v, f)
+        iso = _views_isolated(st)
+        if v[:4] != iso:
+            return "value %d: views %r differ from views computed one at a time on fresh values %r" % (idx, v[:4], iso)
         if _views(p) != v:
             return "value %d: views not stable" % idx
     return None
